@@ -112,6 +112,22 @@ class Impl:
         return 'Impl()'
 
 
+_TG = T.TypeVar('_TG')
+
+
+class Box(list[_TG]):
+    """user generic with an unerased pseudo-superclass: Box[int] = a Box that is a list[int]"""
+
+
+class Pair(T.Generic[_TG]):
+    """user generic without pseudo-superclasses: Pair[int] is checked by isinstance alone"""
+    def __init__(self, x=None):
+        self.x = x
+
+    def __repr__(self):
+        return f'Pair({self.x!r})'
+
+
 # user predicates of Is[...]: SAME table as predTable in lean/BearVerif/Driver/Bear.lean
 PRED_FUNCS = [
     lambda x: True,
@@ -140,7 +156,7 @@ NT_LIST = T.NewType('NT_LIST', list)
 
 LEAF_HASHABLE = [int, str, bool, float, type(None), None, T.Literal[1, 'a'], T.Literal[True], T.Literal[0, None],
                  TV_BOUND, NT_INT, T.Optional[int], int | str]
-LEAF_OTHER = [Proto, U0, U1, object, T.Any, type[int], type[U0], type[T.Any], A.Iterator[int], A.Callable[[int], str],
+LEAF_OTHER = [Proto, Box[int], Box[str], Box, Pair[int], Pair, T.Union[Box[int], Box[str]], T.Union[Box[str], Box[int], None], U0, U1, object, T.Any, type[int], type[U0], type[T.Any], A.Iterator[int], A.Callable[[int], str],
               A.Generator[int, None, None], A.ItemsView[str, int], T.List, TV_FREE, TV_CONSTR, NT_LIST, list, dict,
               complex, bytes, A.Hashable, A.Sized]
 
@@ -251,7 +267,7 @@ class HintGen:
         raise AssertionError(k)
 
 
-LEAF_OBJECTS = [Impl(), 0, 1, -3, 7, True, False, 'a', 'ab', '', None, 2.5, 1j, b'x', U0(x=1), U1(x=0, y='ab'), U2(), int, U1, str,
+LEAF_OBJECTS = [Impl(), Box([1, 2]), Box(['a']), Box(), Pair(1), 0, 1, -3, 7, True, False, 'a', 'ab', '', None, 2.5, 1j, b'x', U0(x=1), U1(x=0, y='ab'), U2(), int, U1, str,
                 U0(x=U1(y=1), z=[1]), len]
 
 
@@ -376,6 +392,10 @@ class ObjGen:
                 if k == 3:
                     return (y for y in xs)
                 return UserSeq(xs)
+        if origin is Box:
+            return Box(mk(args[0]) for _ in range(self.size()))
+        if origin is Pair:
+            return Pair(mk(args[0]))
         if origin is A.Iterator:
             return iter([1, 2])
         if origin is A.Generator:
@@ -425,7 +445,7 @@ class ObjGen:
         table = {int: lambda: r.choice([0, 1, -3, 7, True]), bool: lambda: r.choice([True, False]),
                  str: lambda: r.choice(['a', 'ab', '']), float: lambda: 2.5, complex: lambda: 1j,
                  bytes: lambda: b'x', list: lambda: [1, 'a'][:self.size()], dict: lambda: {'a': 1},
-                 Proto: lambda: Impl(),
+                 Proto: lambda: Impl(), Box: lambda: r.choice([Box([1, 2]), Box(['a', 'b']), Box()]), Pair: lambda: Pair(1),
                  U0: lambda: r.choice([U0(x=1), U1(x=0, y='ab'), U2()]), U1: lambda: U1(x=2),
                  A.Hashable: lambda: r.choice([1, 'a', (1,)]), A.Sized: lambda: r.choice([[1], 'ab', {1: 2}])}
         f = table.get(c)
